@@ -212,6 +212,83 @@ for rk in ("whole", "view", "none"):
         con.cases.append(c)
 
 
+# ---- cleanup_bool_cast ------------------------------------------------------------------------------------
+from cohdl._core import _boolean  # noqa: E402
+
+C.inline("cohdl._core._ir._repr:Nop.__init__")
+C.inline("cohdl._core._type_qualifier:TypeQualifierBase.type")
+
+
+def bool_temp():
+    t = SObj(Temporary, _ref_spec=[], _Wrapped=_boolean.boolean)
+    t.fields["_root"] = t
+    return t
+
+
+def cast_ctx_shape(chain, extra_read):
+    """chain bool casts t0 -> t1 -> .. -> tk; the context reads tk (and maybe t0 / an unrelated temporary)"""
+
+    def make(env):
+        ts = [bool_temp() for _ in range(chain + 1)]
+        stmts = [SObj(ir.Boolean, _arg=ts[i], _result=ts[i + 1]) for i in range(chain)]
+        other = bool_temp()
+        reads = [ts[-1]] + ({"first": [ts[0]], "other": [other], "none": []}[extra_read])
+        return SObj(ir.Context, __stmts__=stmts, __events__=[("dir", o, R) for o in reads], __capture__=[], __temps__=ts)
+
+    return Built([], make, lambda asg: "None", lambda asg: None)
+
+
+def _ctx_visit_list(it, self, operation):
+    if "__stmts__" in self.fields:
+        self.fields["__replaced__"] = [it.call(operation, [s], {}) for s in self.fields["__stmts__"]]
+        return None
+    return _ctx_visit(it, self, operation)
+
+
+I.register_model(ir.Context.__dict__["visit"], _ctx_visit_list)
+_prev2 = I.MODELS[id(ir._visit_referenced_objects)]
+
+
+def _vro_capture(it, obj, operation):
+    if isinstance(obj, SObj) and "__capture__" in obj.fields:
+        for kind, o, acc in obj.fields["__events__"]:
+            obj.fields["__capture__"].append((o, it.call(operation, [o, acc], {})))
+        return None
+    return _prev2(it, obj, operation)
+
+
+I.register_model(ir._visit_referenced_objects, _vro_capture)
+
+
+def cast_spec(chain):
+    def spec(sx, ctx):
+        real = sx.real_args[0]
+
+        def holds(res):
+            ts = real.fields["__temps__"]
+            if res is not real:
+                return False
+            if not all(isinstance(r, SObj) and r.kind is ir.Nop for r in real.fields["__replaced__"]):
+                return False  # every redundant cast is removed ...
+            for before, after in real.fields["__capture__"]:
+                want = ts[0] if any(before is t for t in ts) else before
+                if after is not want:
+                    return False  # ... and every use of a removed target refers to the original source
+            return True
+
+        return C.Pred(holds, "uses of removed cast results refer to the original source")
+
+    return spec
+
+
+con = contract("cohdl._compiler.frontend._generate_ir:ConvertInstance.cleanup_bool_cast", PROPS)
+for chain in (1, 2, 3):
+    for extra in ("none", "first", "other"):
+        c = Case(f"chain-{chain}-{extra}", [cast_ctx_shape(chain, extra)], cast_spec(chain))
+        c.native = False
+        con.cases.append(c)
+
+
 _DESIGN = '''
 from cohdl import Entity, Port, Bit, BitVector, Unsigned, std
 class E(Entity):
